@@ -290,6 +290,9 @@ SOLO_COMPOSITES = [
     L("enum_untyped_obj", {"enum": [{"a": 1}, {"a": 2}]}, enf=False, sup=False),
     L("not_enum_int", {"type": "integer", "not": {"enum": [1, 2]}}, ff=False, enf=True),
     L("not_enum_negint", {"type": "integer", "not": {"enum": [-1, -2, 7]}}, ff=False, enf=True),
+    # deny lists whose `type` sits inside the negation, carrying a default (the default is kept in this spelling)
+    L("deny_typed_str_dflt", {"not": {"type": "string", "enum": ["root", "admin"]}, "default": "guest"}, ff=False, enf=False),
+    L("deny_typed_int_dflt", {"not": {"type": "integer", "enum": [0, 13]}, "default": 7}, ff=False, enf=False),
     L("not_typed_negint", {"not": {"type": "integer", "enum": [-1, -2, 7]}}, ff=False, enf=True),   # the type sits inside `not`: an i64 deny list
     L("enum_negint", {"type": "integer", "enum": [-1, 0, 1]}, enf=True),
     L("not_enum_untyped_int", {"not": {"enum": [1, 2]}}, ff=False, enf=False, sup=False),
